@@ -106,7 +106,18 @@ def build(v: dict):
                 arr[k] = x
         else:
             arr = np.array(data, dtype=np.dtype(v["s"]))
-        return arr.reshape(shape)
+        arr = arr.reshape(shape)
+        lay = v["n"]  # encoder attribute: memory layout (never part of the value)
+        if lay == 1:
+            arr = np.asfortranarray(arr)
+        elif lay == 2:  # non-contiguous view: every second element along the last axis of a wider array
+            big = np.empty((*shape[:-1], 2 * shape[-1]), dtype=arr.dtype)
+            big[..., 1::2] = arr[..., ::-1]
+            big[..., ::2] = arr
+            arr = big[..., ::2]
+        elif lay == 3:  # transposed view of the C-contiguous transpose (same memory as lay 0 of a.T)
+            arr = np.ascontiguousarray(arr.T).T
+        return arr
     if t == "Series":
         data = [build(x) for x in a[1]["a"]]
         dt = "float64" if any(x["t"] == "Float" for x in a[1]["a"]) else "int64"
@@ -160,7 +171,9 @@ def unbuild(o) -> dict:
     if isinstance(o, array.array):
         return _V("PyArray", s=o.typecode, a=[unbuild(x) for x in o])
     if isinstance(o, np.ndarray):
-        return _V("NdArray", s=o.dtype.str, a=[_V("Tuple", a=[unbuild(x) for x in o.shape]),
+        c, f = o.flags["C_CONTIGUOUS"], o.flags["F_CONTIGUOUS"]
+        lay = 0 if c else 2 if not f else 1 if o.base is None else 3
+        return _V("NdArray", s=o.dtype.str, n=lay, a=[_V("Tuple", a=[unbuild(x) for x in o.shape]),
                                                 _V("Tuple", a=[unbuild(x) for x in o.flatten()])])
     if isinstance(o, pd.Series):
         return _V("Series", s=o.name, a=[_V("Tuple", a=[unbuild(x) for x in o.index]),
@@ -208,7 +221,8 @@ def show(v: dict) -> str:
     if t == "DefaultDict":
         return f"defaultdict({v['s']}, {{{inner}}})"
     if t == "NdArray":
-        return f"ndarray({v['s']}, shape={show(a[0])}, {show(a[1])})"
+        lay = ["", ", layout=F", ", layout=strided-view", ", layout=transposed-view"][v["n"]]
+        return f"ndarray({v['s']}, shape={show(a[0])}, {show(a[1])}{lay})"
     if t == "Series":
         return f"Series(name={v['s']!r}, index={show(a[0])}, data={show(a[1])})"
     if t == "DataFrame":
@@ -332,6 +346,10 @@ def child_main(argv: list[str] | None = None) -> None:
     B = [build(v) for v in vals]
     out: dict = {"hashseed": os.environ.get("PYTHONHASHSEED"), "n": n}
     out["roundtrip_bad"] = [i for i in range(n) if _norm(unbuild(A[i])) != _norm(vals[i])]
+    # how the encoder attributes came out: iteration order of (frozen)sets, contiguity of arrays
+    out["iter_order"] = [json.dumps([canon(x) for x in o]) if isinstance(o, (set, frozenset)) else "" for o in A]
+    out["flags"] = [("C" if o.flags["C_CONTIGUOUS"] else "") + ("F" if o.flags["F_CONTIGUOUS"] else "")
+                    if isinstance(o, np.ndarray) else "" for o in A]
 
     def key_of(o):
         try:
@@ -621,6 +639,10 @@ def diff_kind(v: dict, w: dict) -> tuple[str, str]:
         return "content", t
     if t == "NdArray" and (v["s"] != w["s"] or v["a"][0] != w["a"][0]):
         return ("array_dtype" if v["s"] != w["s"] else "array_shape"), t
+    if t == "NdArray" and v["a"] == w["a"]:
+        return "array_layout_only", t  # Eq values: only the encoder attribute differs
+    if t == "NdArray" and (v["s"] != "|O" or v["n"] != w["n"]):
+        return ("array_data_other_layout" if v["n"] != w["n"] else "array_data"), t
     if v["s"] != w["s"] or v["n"] != w["n"]:
         return "attribute", t
     if t in ("Dict", "DefaultDict", "Counter"):  # same keys: look into the first value that differs
@@ -786,6 +808,29 @@ def selftest(ctx, vals: list[dict], outs: list[dict], base: list[dict]) -> None:
                  f"pair=({i},{k}) new={sorted(map(str, new))[:8]}")
 
 
+def encoder_attribute_evidence(ctx, vals: list[dict], outs: list[dict]) -> None:
+    """The encoder attributes Eq ignores must really come out differently in the Python objects: Eq arrays with
+    different contiguity, Eq frozensets with different iteration order (inside one interpreter: colliding small
+    ints; between the interpreters: strings under another PYTHONHASHSEED)."""
+    lay = fs_in = fs_x = 0
+    for i, r in enumerate(vals):
+        t = r["v"]["t"]
+        for j in r["eq"]:
+            if j <= i:
+                continue
+            if t == "NdArray" and outs[0]["flags"][i] != outs[0]["flags"][j]:
+                lay += 1
+            if t == "FrozenSet" and outs[0]["iter_order"][i] != outs[0]["iter_order"][j]:
+                fs_in += 1
+        if t == "FrozenSet" and outs[0]["iter_order"][i] != outs[1]["iter_order"][i]:
+            fs_x += 1
+    ctx.extra["encoder_attributes"] = {"eq_array_pairs_with_different_contiguity": lay,
+                                       "eq_frozenset_pairs_iterating_differently_in_one_interpreter": fs_in,
+                                       "frozensets_iterating_differently_between_interpreters": fs_x}
+    ctx.selftest("encoder-attributes-materialised(layout, iteration order)", lay > 0 and fs_in > 0,
+                 json.dumps(ctx.extra["encoder_attributes"]))
+
+
 def scheme_model_evidence(ctx, vals: list[dict], diag: dict, outs: list[dict], key: str = "scheme_models") -> None:
     """What TLC reports about the scheme AS CODED, and which transcription (as coded / repaired) the real
     code conforms to.  Informative: the verdict compares the real keys with Eq, not with a transcription."""
@@ -933,11 +978,14 @@ def mutate(rng, v: dict) -> dict:
         node.update(rng.choice([_V("Bytes" if t == "Str" else "Str", s=node["s"]), _V(t, s=node["s"] + "b")]))
     elif t == "NdArray":
         sh = [x["n"] for x in a[0]["a"]]
-        if node["s"] in ("<i8", "<i4") and rng.random() < 0.5:
+        if len(sh) == 2 and min(sh) >= 2 and rng.random() < 0.5:
+            node["n"] = rng.choice([k for k in (0, 1, 2, 3) if k != node["n"]])  # same value, other memory layout
+        elif node["s"] in ("<i8", "<i4") and rng.random() < 0.5:
             node["s"] = "<i4" if node["s"] == "<i8" else "<i8"
         else:
             new = [1, *sh] if rng.random() < 0.5 or len(sh) < 2 else sh[::-1]
             a[0]["a"] = [_V("Int", n=d) for d in new]
+            node["n"] = 0
     elif t == "Series":
         k = rng.randrange(4)
         if k == 0:
@@ -1034,6 +1082,8 @@ def run(ctx) -> None:
                 % (depth, *seeds))
     ctx.assumptions = ["TLC and the value encoder (abstract value -> Python object; round trip checked per value) are trusted",
                        "Python's == on keys is what the caches use (dict lookup: also hash equality is checked)",
+                       "encoder attributes (set / frozenset / dict insertion order, array memory layout) are not part of a value: "
+                       "Eq ignores them, keys must too",
                        "don't-care (either outcome accepted): numerically equal scalars of different numeric type; "
                        "deque.maxlen / defaultdict.default_factory / array typecode; Eq objects keyed by pickle whose "
                        "representation differs; pickle bytes of as-is frozensets (DiskCache file names)",
@@ -1051,6 +1101,7 @@ def run(ctx) -> None:
                  any(r["mprob"] for r in vals) and len(diag["CODED_COLLISION"]) > 0,
                  f"not total: {sum(1 for r in vals if r['mprob'])} values, collisions: {len(diag['CODED_COLLISION'])} ordered pairs")
     scheme_model_evidence(ctx, vals, diag, outs)
+    encoder_attribute_evidence(ctx, vals, outs)
     random_part(ctx, seeds, 40 if quick else 150, seen)
 
     for r in vals:
